@@ -399,6 +399,20 @@ def c09_monitor(ctx, tr, ix):
             cost = occ + v["inputs"]["order_cost"]
             n += 1
             validated[o["id"]] = v["veto"]
+            # the available cash the validator relied on, recomputed from the raw ledger: balance - margin of every holding - reserved
+            led = v["inputs"].get("ledger")
+            if led is not None and not nan_in(led):
+                marg = 0.0
+                for h in led["holdings"]:
+                    fh = ix.fut.get(h["id"])
+                    if fh is not None:
+                        for sd in ("long", "short"):
+                            marg += h[sd]["qty"] * h[sd]["last"] * fh["mult"] * fh["info"]["margin_rate"] * mm
+                avail = led["total_cash"] - marg - led["frozen"]
+                if abs(avail - v["inputs"]["cash"]) > 1e-6 * max(1.0, abs(avail)) and not validated.get("_reported"):
+                    validated["_reported"] = True
+                    ctx.witness("C09.1", {"kind": "available_cash_formula", "account": led["type"]}, "opening order %s x %s @ %r validated against available cash %r; balance %r - margin of the holdings %r - reserved %r = %r"
+                                % (o["book"], o["qty"], o["frozen_price"], v["inputs"]["cash"], led["total_cash"], marg, led["frozen"], avail), rp)
             if v["veto"] != (cost > v["inputs"]["cash"]) and abs(cost - v["inputs"]["cash"]) > 1e-6:
                 ctx.witness("C09.1", {"kind": "cash_validator_decision", "veto": v["veto"]}, "opening order %s x %s @ %r: estimated cost %r, available cash %r, %s"
                             % (o["book"], o["qty"], o["frozen_price"], cost, v["inputs"]["cash"], "REJECTED" if v["veto"] else "ACCEPTED"), rp)
